@@ -251,13 +251,23 @@ UnansweredEv(e, s) ==
                   Report("VIOL", e, [fails |-> {"lost"}, how |-> why, noEffect |-> okU, anom |-> e.anom]))
           ELSE (* (after a reported loss or unanswered read of an existing path, further unanswered steps of the run whose effect
                   cannot be told apart are not reported again) *)
-               (~Drifted(e) /\ <<e.run, why>> \notin seen /\ <<e.run, "lost">> \notin seen /\ <<e.run, "unread">> \notin seen =>
+               (~Drifted(e) /\ <<e.run, why>> \notin seen /\ <<e.run, "lost">> \notin seen /\ <<e.run, "unread">> \notin seen
+                /\ ~(<<e.run, "thread">> \in seen /\ ~can) =>
                   Report("DRIFT", e, [fails |-> {why}, tookEffect |-> okA, noEffect |-> okU, anom |-> e.anom]))
      /\ seen' = seen \cup {IF lost THEN <<e.run, "lost">> ELSE <<e.run, why>>}
                      \cup (IF okA \/ okU THEN {} ELSE {<<e.run, "drift">>})
      /\ nodes' = t /\ disk' = t
      /\ uname' = IF e.op = "setname" THEN e.name ELSE uname
      /\ out' = [op |-> e.op, unanswered |-> TRUE]
+
+(* A delete-article with the recursive flag set, for which the server shows the second reading (the article and its
+   reply subtree are gone, everything else is there): accepted, the model follows. *)
+RecAlt(e, s) == /\ e.op = "delart" /\ e.rec = 1 /\ DelArtHit(s)
+                /\ DelArtTreeRec(s) # DelArtTree(s)
+                /\ ~TreeClean(e, DelArtTree(s)) /\ TreeClean(e, DelArtTreeRec(s))
+DeleteThread(s) == /\ nodes' = DelArtTreeRec(s) /\ disk' = nodes'
+                   /\ out' = [op |-> "delart", path |-> s.path, id |-> s.id, hit |-> TRUE, thread |-> TRUE]
+                   /\ UNCHANGED uname
 
 StepEv ==
   LET e == Log[l]
@@ -268,20 +278,23 @@ StepEv ==
      ELSE IF ~Guard(s) \/ (e.op = "reload" /\ ~e.ok)
        THEN (* not a step of the model: the script should not contain it (or the file could not be loaded: the
                disk view of the previous step has already said so) *)
-            /\ (~Drifted(e) /\ e.op # "reload" /\ <<e.run, "lost">> \notin seen =>
+            /\ (~Drifted(e) /\ e.op # "reload" /\ <<e.run, "lost">> \notin seen /\ <<e.run, "thread">> \notin seen =>
                   Report("DRIFT", e, [fails |-> {"step not enabled in the model"}]))
             /\ seen' = IF e.op = "reload" THEN seen ELSE seen \cup {<<e.run, "drift">>}
             /\ UNCHANGED vars
-       ELSE /\ IF Adopts(e) THEN ReloadAdopt(e) ELSE Apply(s)
+       ELSE /\ IF Adopts(e) THEN ReloadAdopt(e) ELSE IF RecAlt(e, s) THEN DeleteThread(s) ELSE Apply(s)
             /\ LET f == Fails(e, nodes', nodes)
                    viol == f \cap ViolTags
                    fresh == {x \in viol : <<e.run, x>> \notin seen}
-               IN IF Drifted(e) \/ f = {} THEN seen' = seen
+                   (* the scripts are generated under the first reading of a recursive delete: once the server has
+                      shown the second one, later steps may name articles that are gone *)
+                   sn == IF RecAlt(e, s) THEN seen \cup {<<e.run, "thread">>} ELSE seen
+               IN IF Drifted(e) \/ f = {} THEN seen' = sn
                   ELSE IF viol # {}
                     THEN /\ (fresh # {} => Report("VIOL", e, Detail(e, nodes', nodes, fresh)))
-                         /\ seen' = seen \cup {<<e.run, x>> : x \in viol}
+                         /\ seen' = sn \cup {<<e.run, x>> : x \in viol}
                     ELSE /\ Report("DRIFT", e, Detail(e, nodes', nodes, f))
-                         /\ seen' = seen \cup {<<e.run, "drift">>}
+                         /\ seen' = sn \cup {<<e.run, "drift">>}
 
 Next == /\ l <= Len(Log)
         /\ (World \/ StepEv)
